@@ -258,9 +258,14 @@ Section Recognise.
     let row := tget tb (lhs p) s in
     if ps_subset es row then (tb, ch) else (tset tb (lhs p) s (ps_union es row), true).
 
-  (** All (production, start position) pairs, start positions descending. *)
+  (** The schedule of one round: all (production, start position) pairs, start positions
+      descending; for each start position the productions are visited in grammar order and then
+      once more in reverse order (measured: whatever the order in which the grammar lists its
+      non-terminals, chains of unit/left-corner productions are then resolved in very few
+      rounds).  Correctness only needs: every entry is a valid pair, every pair occurs. *)
   Definition work : list (prod * nat) :=
-    flat_map (fun s => map (fun p => (p, s)) (prods g)) (rev (seq 0 (S (length w)))).
+    flat_map (fun s => map (fun p => (p, s)) (prods g ++ rev (prods g)))
+             (rev (seq 0 (S (length w)))).
 
   Definition round (wk : list (prod * nat)) (tb : table) : table * bool :=
     fold_left upd wk (tb, false).
@@ -458,9 +463,10 @@ Section Recognise.
   Proof.
     unfold work. rewrite in_flat_map. split.
     - intros (s' & Hs & Hp). apply in_map_iff in Hp as (p' & E & Hp). inversion E; subst.
-      rewrite <- in_rev in Hs. apply in_seq in Hs. split; [exact Hp|lia].
+      rewrite <- in_rev in Hs. apply in_seq in Hs. split; [|lia].
+      apply in_app_iff in Hp as [Hp|Hp]; [exact Hp|rewrite <- in_rev in Hp; exact Hp].
     - intros [Hp Hs]. exists s. split; [rewrite <- in_rev; apply in_seq; lia|].
-      apply in_map_iff. exists p. split; [reflexivity|exact Hp].
+      apply in_map_iff. exists p. split; [reflexivity|apply in_app_iff; left; exact Hp].
   Qed.
 
   Lemma work_valid : wk_valid work.
